@@ -101,6 +101,17 @@ extra7={
 for k,t in extra7.items():
     checks[k]["text"]+=t
 checks["C15"]["engine"]="E3+E1"
+# additions of the eighth wave
+extra8={
+ "C02":"; top-level containers cleared and refilled with the same entries",
+ "C06":"; scenarios with two client objects (two collectors) alive at once",
+ "C10":"; after every operation of the self-deadlock pass - returned or panicked (uncomparable stored values) - the lock is free",
+ "C16":"; an unserialisable record in the Append alphabet",
+ "C17":"; level-dropped formatted calls in the interval histories",
+ "C18":"; a second edit landing inside a reload (before / after the read) through a parser seam",
+}
+for k,t in extra8.items():
+    checks[k]["text"]+=t
 fix_commits=subprocess.run("git -C /repo log --format=%h --grep '^fix:'",shell=True,capture_output=True,text=True).stdout.split()
 hook_commits=subprocess.run("git -C /repo log --format=%h --grep '^verif hooks'",shell=True,capture_output=True,text=True).stdout.split()
 m={
